@@ -138,6 +138,7 @@ type exec struct {
 	pendingAbort *abort
 	exitAck      chan struct{}
 	syncMaps     map[*value]*gmap
+	mapHashes    map[*value]*[]byte
 	hashAbstract bool
 	uidCounter   int
 	preemptFns   map[string]bool
